@@ -162,8 +162,13 @@ class Acc(object):
             return
         if v.nontrivial:
             self.sigs.add(v.sig if v.sig is not None else sig64(_canon(case)))
-            if len(self.samples) < self.MAX_SAMPLES and (self.evaluations % 7 == 1 or len(self.samples) < 2):
+            # samples at geometrically growing positions: the first generated cases are the simplest ones, later ones are typical
+            self._nt = getattr(self, "_nt", 0) + 1
+            if self._nt >= getattr(self, "_next_sample", 1):
+                self._next_sample = max(2, self._nt * 4)
                 self.samples.append(sample if sample is not None else case)
+                if len(self.samples) > self.MAX_SAMPLES:
+                    del self.samples[0]
         if v.status == "known":
             self.known_hits[v.finding] = self.known_hits.get(v.finding, 0) + 1
         elif v.status == "masked":
@@ -181,8 +186,9 @@ class Acc(object):
         self.sigs |= o.sigs
         for k, n in o.classes.items():
             self.classes[k] = self.classes.get(k, 0) + n
-        for s in o.samples:
-            if len(self.samples) < 12:
+        # at most two (the latest, i.e. most typical) from each shard, so that the evidence shows several generators
+        for s in o.samples[-2:]:
+            if len(self.samples) < 14:
                 self.samples.append(s)
         self.failures.extend(o.failures)
         for k, n in o.fail_buckets.items():
@@ -594,7 +600,7 @@ def run_property(pid, tier, seed, jobs=None):
         "evaluations": total.evaluations,
         "distinct_nontrivial": len(total.sigs),
         "rule": mod.RULE,
-        "samples": [to_json(s) for s in total.samples[:10]],
+        "samples": [to_json(s) for s in (total.samples[::2] + total.samples[1::2])[:10]],
         "classes": dict(sorted(total.classes.items())),
         "excluded": total.excluded,
         "known_hits": total.known_hits,
